@@ -1,5 +1,5 @@
 """C20 CowBytes / LongChain behave like a byte sequence -- invariant maintenance rules."""
-from an import (Tracer, Explorer, STOP, guard_at, strip, leaves, walk, fmt, callee, callee_def,
+from an import (const_eval, Tracer, Explorer, STOP, guard_at, strip, leaves, walk, fmt, callee, callee_def,
                 field_reads, N)
 from mir import loc_str, place_str
 
@@ -559,6 +559,105 @@ def check_r4(facts, rep, crate):
     rep.floor(rid, "chunk-vector mutators", n, 7)
 
 
+def check_r5(facts, rep, crate):
+    """Order of chunks when a chain is split inside a chunk: an abstract sequence (HALF = the right half of the
+    split chunk, TAIL = the whole chunks after it) is computed for the Vec the half is put into."""
+    rid = "C20.R5"
+    rep.rule(rid, "chunk order: when LongChain splits inside a chunk, the right half of that chunk precedes the whole chunks that "
+                  "followed it in the chain it is moved to (abstract sequence of the Vec-building calls)")
+    n = 0
+    for b in crate.bodies:
+        if "LongChain" not in b.path or "::tests::" in b.path:
+            continue
+        tr = Tracer(facts, b)
+
+        def kind_of(node):
+            node = strip(node)
+            if node.kind == "call" and node[6] == "split_off" and "CowBytes" in node[2] and "Vec" not in node[2]:
+                return "HALF"
+            if node.kind == "call" and node[6] in ("split_off", "drain") and "Vec" in node[2] and \
+                    any(is_data_place_node(x) for x in walk(node[3][0])):
+                return "TAIL"
+            return None
+        halves = [bi for bi, t in b.calls() if callee(t) and callee(t)["name"] == "split_off" and "CowBytes" in callee(t)["path"] and "Vec" not in callee(t)["path"]
+                  and any(x.kind == "call" and x[6] in ("index_mut", "get_mut", "index", "last_mut", "first_mut") for x in walk(tr.operand(t["args"][0])))]
+        if not halves:
+            continue
+        rep.analysed(b)
+        for hb in halves:
+            n += 1
+            where = "%s (%s)" % (loc_str(b.term(hb)["loc"]), b.path)
+            # calls that put this half into a vector
+            placed = None
+            for bi, t in b.calls():
+                c = callee(t)
+                if not c or c["name"] not in ("push", "insert", "extend", "append") or "Vec" not in c["path"] + c.get("def", ""):
+                    continue
+                if any(x.kind == "call" and x[4] == hb for x in walk(tr.operand(t["args"][-1]))):
+                    placed = (bi, t)
+            if placed is None:
+                rep.bad(rid, "%s/half-placed" % b.path, where, "cannot locate where the right half of the split chunk is stored (unrecognised construction; fail closed)")
+                continue
+            recv = strip(tr.operand(placed[1]["args"][0]))
+            if recv.kind != "call":
+                rep.bad(rid, "%s/half-placed" % b.path, where, "the split chunk's right half is inserted into `%s`, not into a freshly built vector" % fmt(recv)[:80])
+                continue
+            init_bb = recv[4]
+            seq = []
+            k0 = kind_of(recv)
+            if k0:
+                seq.append(k0)
+            ops = []
+            for bi, t in b.calls():
+                c = callee(t)
+                if not c or c["name"] not in ("push", "insert", "extend", "append"):
+                    continue
+                r2 = strip(tr.operand(t["args"][0]))
+                if r2.kind == "call" and r2[4] == init_bb:
+                    ops.append((bi, t, c["name"]))
+            # total order by dominance
+            ops.sort(key=lambda o: sum(1 for p in ops if p[0] != o[0] and b.dominates(p[0], o[0])))
+            linear = all(b.dominates(ops[i][0], ops[i + 1][0]) for i in range(len(ops) - 1))
+            undecided = not linear
+            for bi, t, name in ops:
+                k = kind_of(tr.operand(t["args"][-1])) or "?"
+                if name in ("push", "extend", "append"):
+                    seq.append(k)
+                else:
+                    idx = const_eval(tr.operand(t["args"][1]))
+                    if idx == 0:
+                        seq.insert(0, k)
+                    else:
+                        undecided = True
+            if undecided or "HALF" not in seq:
+                rep.bad(rid, "%s/chunk-order" % b.path, where, "cannot decide the chunk order of the vector built here (ops %s; fail closed)" % [o[2] for o in ops])
+            elif "TAIL" in seq and seq.index("TAIL") < seq.index("HALF"):
+                rep.bad(rid, "%s/chunk-order" % b.path, where,
+                        "the right half of the split chunk is placed AFTER the whole chunks that followed it (sequence %s): the bytes of the "
+                        "returned chain are out of order whenever the split point is inside a chunk that is not the last" % seq)
+            else:
+                rep.ok(rid, "%s/chunk-order" % b.path, where, "sequence %s" % seq)
+            # the whole-chunk tail starts right after the split chunk
+            hidx = None
+            for x in walk(tr.operand(b.term(hb)["args"][0])):
+                if x.kind == "call" and x[6] in ("index_mut", "index") and len(x[3]) > 1:
+                    hidx = strip(x[3][1])
+            tails = [strip(x) for bi, t, name in ops for x in walk(tr.operand(t["args"][-1])) if kind_of(x) == "TAIL"]
+            if kind_of(recv) == "TAIL":
+                tails.append(recv)
+            for tl in tails:
+                ti = strip(tl[3][1]) if len(tl[3]) > 1 else None
+                good = hidx is not None and ti is not None and ti.kind == "bin" and ti[1] == "Add" and \
+                    ((strip(ti[2]) == hidx and const_eval(ti[3]) == 1) or (strip(ti[3]) == hidx and const_eval(ti[2]) == 1))
+                if good:
+                    rep.ok(rid, "%s/tail-after-split-chunk" % b.path, where, "whole chunks taken from index (split chunk + 1)")
+                else:
+                    rep.bad(rid, "%s/tail-after-split-chunk" % b.path, where,
+                            "the whole chunks moved to the new chain start at `%s`, not at (index of the split chunk `%s`) + 1: a chunk is "
+                            "duplicated or lost" % (fmt(ti)[:60] if ti is not None else "?", fmt(hidx)[:40] if hidx is not None else "?"))
+    rep.floor(rid, "mid-chunk splits of a chain", n, 1)
+
+
 def check(facts, rep, tier, cfg):
     crate = facts.crate("cow_bytes")
     if crate is None:
@@ -568,3 +667,4 @@ def check(facts, rep, tier, cfg):
     check_r2(facts, rep, crate)
     check_r3(facts, rep, crate)
     check_r4(facts, rep, crate)
+    check_r5(facts, rep, crate)
